@@ -1,4 +1,5 @@
 import Swim.Props.Cluster
+import Swim.Props.C08
 /-!
 # Cluster-level invariant for arbitrary histories (C02, C05, C08 at cluster level)
 No health hypothesis: probes may fail, suspicions start, time out and are refuted. What stays true:
@@ -334,7 +335,7 @@ def GBenign (w : World) : Msg → Prop
 
 def SelfFactsG (n : Node) : Prop :=
   ∀ me, selfRec n = some me → me.inc ≤ n.selfInc ∧ 0 < me.inc ∧ me.vsn.length = 6 ∧
-    (me.st = .alive ∨ n.hasLeft = true) ∧ me.st ≠ .suspect
+    (me.st = .alive ∨ n.hasLeft = true) ∧ me.st ≠ .suspect ∧ (n.hasLeft = true → me.st ≠ .alive)
 
 def NodeG (w : World) (k : Nat) (n : Node) : Prop :=
   Uniq n ∧ n.selfInc ≤ k ∧ SelfFactsG n ∧ NoSelfTimer n ∧ (∀ r ∈ n.recs, r.name ≠ n.cfg.self → RecG w r)
@@ -504,7 +505,7 @@ theorem grefute_like (w : World) (k : Nat) (x : String) (f : Node → Node × Li
     (hme : selfRec n = some me) (hal : me.st = .alive) (hacc : acc ≤ me.inc) :
     GInv (act w x f src) (k + 1) := by
   obtain ⟨hmem, hname, hu, hsi, hsf, hst, hrg⟩ := actor_facts hinv hfind
-  obtain ⟨f1, f2, f3, f4, f5⟩ := hsf me hme
+  obtain ⟨f1, f2, f3, f4, f5, f6⟩ := hsf me hme
   obtain ⟨b1, b2, b3, b4, b5⟩ := hb1
   have hmn : me.name = n.cfg.self := lookup_name hme
   obtain ⟨r1, r2, r3, r4, r5, r6⟩ := refute_sum n1 me acc (by rw [b3]; omega) (by rw [b3]; omega)
@@ -527,7 +528,10 @@ theorem grefute_like (w : World) (k : Nat) (x : String) (f : Node → Node × Li
       exact refute_uniq n1 me acc this (by rw [b2, hmn]; unfold selfRec at hme; rw [hme]; rfl)
     · intro me0 hme0
       rw [hR] at hme0; cases hme0
-      refine ⟨by rw [hf, r1, b3]; exact Nat.le_refl _, Nat.succ_pos _, f3, Or.inl hal, by rw [hal]; simp⟩
+      refine ⟨by rw [hf, r1, b3]; exact Nat.le_refl _, Nat.succ_pos _, f3, Or.inl hal, by rw [hal]; simp, ?_⟩
+      intro hl
+      rw [hf, r3, b4] at hl
+      exact absurd hal (f6 hl)
     · intro t ht
       rw [hf, r4] at ht
       rw [hf, r2, b1]
@@ -669,7 +673,7 @@ theorem gself_gone (w : World) (k : Nat) (x : String) (f : Node → Node × List
     (hemit : ∀ o ∈ (f n).2, ∀ m ∈ emit (f n).1 src o, m = .dead c) :
     GInv (act w x f src) (k + 1) := by
   obtain ⟨hmem, hname, hu, hsi, hsf, hst, hrg⟩ := actor_facts hinv hfind
-  obtain ⟨f1, f2, f3, f4, f5⟩ := hsf me hme
+  obtain ⟨f1, f2, f3, f4, f5, f6⟩ := hsf me hme
   have hmn : me.name = n.cfg.self := lookup_name hme
   have hle2 : c.inc ≤ me.inc := by
     rw [hs] at hK
@@ -691,9 +695,12 @@ theorem gself_gone (w : World) (k : Nat) (x : String) (f : Node → Node × List
   · refine ⟨hU, by rw [hi]; omega, ?_, hT⟩
     intro me0 hme0
     rw [hR] at hme0; cases hme0
-    refine ⟨by rw [hi]; simp only [goneRec]; omega, by simp only [goneRec]; omega, f3, Or.inr hl, ?_⟩
-    simp only [goneRec]
-    split <;> simp
+    refine ⟨by rw [hi]; simp only [goneRec]; omega, by simp only [goneRec]; omega, f3, Or.inr hl, ?_, ?_⟩
+    · simp only [goneRec]
+      split <;> simp
+    · intro _
+      simp only [goneRec]
+      split <;> simp
   · intro w' _ _ y hy hne
     rw [hrecs] at hy
     rcases mem_setRec hy with h | rfl
@@ -721,7 +728,7 @@ theorem gdead_like (w : World) (k : Nat) (x : String) (f : Node → Node × List
     intro w' _ _ o ho
     rw [hf, a5] at ho; cases ho
   · have hme' : selfRec n = some me := hme
-    have hal : me.st = .alive := alive_of_not_gone hng (hsf me hme').2.2.2.2
+    have hal : me.st = .alive := alive_of_not_gone hng (hsf me hme').2.2.2.2.1
     rw [hs] at hK
     obtain ⟨me2, hme2, hle2⟩ := known_self hinv hmem hK
     rw [hme'] at hme2; cases hme2
@@ -789,7 +796,7 @@ theorem gfire_step (w : World) (k : Nat) (x node : String) (ca : Nat) (env : Env
       have hne : state.name ≠ n.cfg.self := by
         intro e
         have hme : selfRec n = some state := by unfold selfRec; rw [← e, hsn]; exact hl
-        exact (hsf state hme).2.2.2.2 hsus
+        exact (hsf state hme).2.2.2.2.1 hsus
       apply gdead_like w k x _ none n { inc := state.inc, node := state.name, frm := n.cfg.self } env hinv hfind hk
         (by simp [timerFire, hl, hc])
       · exact (hrg state hmemr hne).2.1.known
@@ -890,6 +897,16 @@ theorem gage_step (w : World) (k : Nat) (x name : String) (n : Node)
     · exact ⟨rfl, rfl⟩
     · exact ⟨rfl, rfl⟩
 
+theorem announce_left_noop (n : Node) (addr port md : Nat) (vsn : List Nat) (env : Env) (hl : n.hasLeft = true) :
+    (announce addr port md vsn env n).1.recs = n.recs ∧ (announce addr port md vsn env n).2 = [] := by
+  unfold announce
+  cases lookup n.recs n.cfg.self with
+  | some me => simp [updateNode, aliveNode, aliveDecide, hl, aliveApply]
+  | none =>
+    by_cases hv : vsn.length = 6
+    · simp [hv, updateNode, aliveNode, aliveDecide, hl, aliveApply]
+    · simp [hv]
+
 /-- **a node announces itself (general).** -/
 theorem gannounce_step (w : World) (k : Nat) (x : String) (addr port md : Nat) (vsn : List Nat) (env : Env) (n : Node)
     (hinv : GInv w k) (hfind : w.nodes.find? (·.cfg.self == x) = some n) (hk : k + 1 < u32) :
@@ -947,9 +964,23 @@ theorem gannounce_step (w : World) (k : Nat) (x : String) (addr port md : Nat) (
       rcases hself with ⟨_, e, _⟩ | ⟨R, e, r1, _, r3, r4, _, r6, _, _⟩
       · rw [e] at hme
         have := hsf me hme
-        refine ⟨by omega, this.2.1, this.2.2.1, by rw [d3]; exact this.2.2.2.1, this.2.2.2.2⟩
+        refine ⟨by omega, this.2.1, this.2.2.1, by rw [d3]; exact this.2.2.2.1, this.2.2.2.2.1, by rw [d3]; exact this.2.2.2.2.2⟩
       · rw [e] at hme; cases hme
-        exact ⟨by omega, by omega, r4, Or.inl r1, by rw [r1]; simp⟩
+        refine ⟨by omega, by omega, r4, Or.inl r1, by rw [r1]; simp, ?_⟩
+        intro hl
+        rw [d3] at hl
+        -- a node that has left ignores its own announcement: nothing would have changed
+        exfalso
+        obtain ⟨q1, _⟩ := announce_left_noop n addr port md vsn env hl
+        have hsr2 : selfRec (announce addr port md vsn env n).1 = selfRec n := selfRec_congr hcfg (by rw [q1])
+        rw [e] at hsr2
+        cases hme0 : selfRec n with
+        | none => rw [hme0] at hsr2; cases hsr2
+        | some me0 =>
+          rw [hme0] at hsr2
+          cases hsr2
+          have := (hsf me hme0).1
+          omega
     · intro t ht
       rw [hcfg]; exact hst t (d1 t ht)
   · intro w' _ _ y hy hne
@@ -976,7 +1007,8 @@ theorem gannounce_step (w : World) (k : Nat) (x : String) (addr port md : Nat) (
 theorem gflag_only (w : World) (k : Nat) (x : String) (f : Node → Node × List Out) (src : Option AliveMsg) (n : Node)
     (hinv : GInv w k) (hfind : w.nodes.find? (·.cfg.self == x) = some n)
     (hcfg : (f n).1.cfg = n.cfg) (hi : (f n).1.selfInc = n.selfInc) (hl : (f n).1.hasLeft = true)
-    (hT : NoSelfTimer (f n).1) (hrecs : (f n).1.recs = n.recs) (hout : (f n).2 = []) :
+    (hT : NoSelfTimer (f n).1) (hrecs : (f n).1.recs = n.recs) (hout : (f n).2 = [])
+    (hgone : ∀ me, selfRec n = some me → me.st ≠ .alive) :
     GInv (act w x f src) (k + 1) := by
   obtain ⟨hmem, hname, hu, hsi, hsf, hst, hrg⟩ := actor_facts hinv hfind
   have hsr : selfRec (f n).1 = selfRec n := selfRec_congr hcfg (by rw [hrecs])
@@ -990,7 +1022,7 @@ theorem gflag_only (w : World) (k : Nat) (x : String) (f : Node → Node × List
     intro me hme
     rw [hsr] at hme
     have := hsf me hme
-    exact ⟨by rw [hi]; exact this.1, this.2.1, this.2.2.1, Or.inr hl, this.2.2.2.2⟩
+    exact ⟨by rw [hi]; exact this.1, this.2.1, this.2.2.1, Or.inr hl, this.2.2.2.2.1, fun _ => hgone me hme⟩
   · intro w' _ _ y hy _
     rw [hrecs] at hy
     exact Or.inl ⟨y, hy, rfl, rfl⟩
@@ -1009,6 +1041,7 @@ theorem gleave_step (w : World) (k : Nat) (x : String) (env : Env) (n : Node)
       have e : leave n env = ({ n with hasLeft := true }, []) := by simp [leave, hl, hme]
       exact gflag_only w k x _ none n hinv hfind (by simp only [e]) (by simp only [e]) (by simp only [e])
         (by simp only [e]; exact hst) (by simp only [e]) (by simp only [e])
+        (fun me0 h0 => by unfold selfRec at h0; rw [hme] at h0; cases h0)
     | some me =>
       have hmn := lookup_name hme
       have hsr : selfRec n = some me := hme
@@ -1020,8 +1053,16 @@ theorem gleave_step (w : World) (k : Nat) (x : String) (env : Env) (n : Node)
       have hU : Uniq (leave n env).1 := leave_uniq n env hu
       rcases dead_sum { n with hasLeft := true } { inc := me.inc, node := me.name, frm := me.name } env hst1 with
           ⟨a1, a2, a3, a4, a5⟩ | ⟨_, hnl, _⟩ | ⟨state, hl2, hng, hle, hsl, b1, b2, b3, b4, b5, b6⟩
-      · exact gflag_only w k x _ none n hinv hfind hcfg (by simp only [e]; exact a2) (by simp only [e]; exact a3)
-          (by simp only [e]; exact a4) (by simp only [e]; exact a1) (by simp only [e]; exact a5)
+      · have hrecs : (leave n env).1.recs = n.recs := by simp only [e]; exact a1
+        refine gflag_only w k x _ none n hinv hfind hcfg (by simp only [e]; exact a2) (by simp only [e]; exact a3)
+          (by simp only [e]; exact a4) hrecs (by simp only [e]; exact a5) ?_
+        intro me0 h0 hal
+        rw [hsr] at h0; cases h0
+        have hnl : n.hasLeft = false := by simpa using hl
+        obtain ⟨_, ⟨me', hl', hst', _⟩, _⟩ := C08_leave_marks_left n env me hme hnl hal
+        rw [hrecs, hme] at hl'
+        cases hl'
+        rw [hal] at hst'; cases hst'
       · cases hnl
       · simp only [hmn] at hl2
         rw [hme] at hl2; cases hl2
@@ -1066,7 +1107,7 @@ theorem gsnapshot_inv (w : World) (k : Nat) (n : Node) (hinv : GInv w k) (hmem :
         by_cases e : r.name = n.cfg.self
         · have hme : selfRec n = some r := by
             unfold selfRec; rw [← e]; exact lookup_of_mem hu hr
-          obtain ⟨f1, f2, f3, f4, f5⟩ := hsf r hme
+          obtain ⟨f1, f2, f3, f4, f5, _⟩ := hsf r hme
           have hk : KnownAt w r.name r.inc r.addr r.port := ⟨n, hmem, e.symm, r, hme, Nat.le_refl _, rfl, rfl⟩
           refine ⟨fun _ => ⟨⟨f2, f3, n, hmem, e.symm, r, hme, Nat.le_refl _, fun _ => ⟨rfl, rfl⟩⟩, hk⟩, hk, ?_⟩
           intro hst
